@@ -123,14 +123,22 @@ func (s *handler4LogSlog) Handle(ctx context.Context, rec logslog.Record) error 
 	if wi, ok := s.Logger.(LogSlogAware); ok {
 		fields := convertLogSlogRecordAttrs(rec)
 
-		// rec.PC would be abandoned because we want skip the extra frames
+		// rec.PC names the statement that issued the record: log/slog
+		// captured it, or a wrapper of the program did before it called
+		// Handle. The logger's skip count moves on from that frame.
 		ei := 0
 		if sa, ok := s.Logger.(interface{ Skip() int }); ok {
 			ei = sa.Skip()
 		}
-		var pcs [1]uintptr
-		runtime.Callers(3+1+ei, pcs[:])
-		rec.PC = pcs[0]
+		if rec.PC == 0 {
+			// no pc in the record: assume a verb of a log/slog.Logger,
+			// skip [runtime.Callers, Handle, Logger.log, Logger.Info]
+			var pcs [1]uintptr
+			runtime.Callers(3+1+ei, pcs[:])
+			rec.PC = pcs[0]
+		} else if ei > 0 {
+			rec.PC = callerAbove(rec.PC, ei)
+		}
 
 		wi.WriteThru(ctx, lvl, rec.Time, rec.PC, rec.Message, s.qualify(fields))
 	} else {
@@ -138,6 +146,22 @@ func (s *handler4LogSlog) Handle(ctx context.Context, rec logslog.Record) error 
 		s.LogAttrs(ctx, lvl, rec.Message, s.qualify(fields))
 	}
 	return nil
+}
+
+// callerAbove returns the pc of the frame n frames above the one pc
+// names on the current call stack. Handlers may sit between log/slog and
+// this one, so that frame is looked up, not counted; pc itself is returned
+// if it is not found (a record handled on another goroutine, say).
+func callerAbove(pc uintptr, n int) uintptr {
+	var pcs [64]uintptr
+	// skip [runtime.Callers, callerAbove]
+	m := runtime.Callers(2, pcs[:])
+	for i := 0; i+n < m; i++ {
+		if pcs[i] == pc {
+			return pcs[i+n]
+		}
+	}
+	return pc
 }
 
 // WithAttrs returns a new Handler whose attributes consist of
